@@ -442,6 +442,7 @@ class List(list, base.Symbolic, pg_typing.CustomTyping):
           old_value.sym_setpath(utils.KeyPath())
     else:
       super().append(new_value)
+    self._sym_reset_content_cache()
     return base.FieldUpdate(
         self.sym_path + index, self,
         self._value_spec.element if self._value_spec else None,
@@ -487,6 +488,7 @@ class List(list, base.Symbolic, pg_typing.CustomTyping):
     if keys_to_remove:
       for i in reversed(keys_to_remove):
         list.__delitem__(self, i)
+      self._sym_reset_content_cache()
 
     # Update paths for children.
     self._sync_children_paths()
@@ -640,6 +642,7 @@ class List(list, base.Symbolic, pg_typing.CustomTyping):
     for i in reversed(indices):
       old_value = self.sym_getattr(i)
       super().__delitem__(i)
+      self._sym_reset_content_cache()
 
       # Detach old value from object tree.
       if isinstance(old_value, base.TopologyAware):
@@ -788,6 +791,7 @@ class List(list, base.Symbolic, pg_typing.CustomTyping):
           f'List cannot be cleared: min size is {self._value_spec.min_size}.')
     old_values = list(self.sym_values())
     super().clear()
+    self._sym_reset_content_cache()
 
     # Detach old values from object tree.
     for old_value in old_values:
@@ -804,6 +808,7 @@ class List(list, base.Symbolic, pg_typing.CustomTyping):
     finally:
       # NOTE: a failed sort (e.g. incomparable items) may have moved items.
       self._sync_children_paths()
+      self._sym_reset_content_cache()
 
   def reverse(self) -> None:
     """Reverse the elements of the list in place."""
@@ -811,6 +816,7 @@ class List(list, base.Symbolic, pg_typing.CustomTyping):
       raise base.WritePermissionError('Cannot reverse a sealed List.')
     super().reverse()
     self._sync_children_paths()
+    self._sym_reset_content_cache()
 
   def custom_apply(
       self,
